@@ -526,7 +526,7 @@ Lemma wire_converters_exact f att next nbr fin fbr bits sg slot :
              u = from_finality_update att fin fbr bits sg slot) /\
   (forall u, from_light_client_optimistic_update f att bits sg slot = Ok u ->
              u = from_optimistic_update att bits sg slot) /\
-  (f <> WOther ->
+  (f <> WOther -> f <> WElectra ->
      from_light_client_update f att next nbr fin fbr bits sg slot <> Err E_UNKNOWN_TYPE /\
      from_light_client_finality_update f att fin fbr bits sg slot <> Err E_UNKNOWN_TYPE /\
      from_light_client_optimistic_update f att bits sg slot <> Err E_UNKNOWN_TYPE).
@@ -761,4 +761,337 @@ Proof.
   intros H; inversion H; subst s. apply bytes_eqb_eq in EH.
   split; [exact EH|]. split; [reflexivity|]. split; [eapply branch_holds_of_verify; exact EV|].
   intros ->. rewrite andb_true_r in EA. now apply negb_false_iff in EA.
+Qed.
+
+(* ================================================================== the four kinds of step of ApplyGenericUpdate *)
+
+Definition fin_part (s : store) (u : update) (s' : store) : Prop :=
+  (s_fin s' = s_fin s /\ fin_slot_or_0 u <= h_slot (s_fin s)) \/
+  (u_fin u = Some (s_fin s') /\ h_slot (s_fin s) < fin_slot_or_0 u /\ h_slot (s_fin s') = fin_slot_or_0 u).
+
+Lemma fin_part_ext s u s' s'' : s_fin s' = s_fin s'' -> fin_part s u s'' -> fin_part s u s'.
+Proof. unfold fin_part. intros ->. auto. Qed.
+
+Lemma apply_kinds s u s' bits :
+  apply s u = Ok s' -> get_bits (u_bits u) = Ok bits ->
+  (s_fin s' = s_fin s /\ s_cur s' = s_cur s /\ s_next s' = s_next s) \/
+  (512 * 2 <= bits * 3 /\ fin_part s u s' /\
+   ((s_next s = None /\ s_cur s' = s_cur s /\ s_next s' = u_next u) \/
+    (exists nx, s_next s = Some nx /\
+        calc_sync_period (fin_slot_or_0 u) <> calc_sync_period (h_slot (s_fin s)) + 1 /\
+        s_cur s' = s_cur s /\ s_next s' = s_next s) \/
+    (exists nx, s_next s = Some nx /\
+        calc_sync_period (fin_slot_or_0 u) = calc_sync_period (h_slot (s_fin s)) + 1 /\
+        s_cur s' = nx /\ s_next s' = u_next u))).
+Proof.
+  unfold apply. intros H G. rewrite G in H. cbn [bind] in H. revert H.
+  set (s1 := if s_cur_max s <? bits then set_cur_max s bits else s).
+  set (s2 := if (safety_threshold s1 <? bits) && (h_slot (s_opt s1) <? h_slot (u_attested u)) then set_opt s1 (u_attested u) else s1).
+  assert (E2 : s_fin s2 = s_fin s /\ s_cur s2 = s_cur s /\ s_next s2 = s_next s).
+  { unfold s2, s1. destruct (s_cur_max s <? bits); destruct (_ && _); cbn; auto. }
+  destruct E2 as (F2 & C2 & N2). clearbody s2. clear s1.
+  destruct ((512 * 2 <=? bits * 3) && ((h_slot (s_fin s2) <? fin_slot_or_0 u) || _)) eqn:EM.
+  2:{ intros H; inversion H; subst s'. left; auto. }
+  apply andb_true_iff in EM as [EMaj _]. assert (Maj : 512 * 2 <= bits * 3) by lia. clear EMaj.
+  intros H. right. split; [exact Maj|].
+  destruct (s_next s2) as [nx|] eqn:EN.
+  - destruct (calc_sync_period (fin_slot_or_0 u) =? calc_sync_period (h_slot (s_fin s2)) + 1) eqn:EP.
+    + (* rotation *)
+      assert (P : calc_sync_period (fin_slot_or_0 u) = calc_sync_period (h_slot (s_fin s)) + 1) by (rewrite <- F2; lia).
+      cbn in H. destruct (h_slot (s_fin s2) <? fin_slot_or_0 u) eqn:EF.
+      * unfold fin_slot_or_0 in EF, H. destruct (u_fin u) as [fh|] eqn:EU; [|discriminate].
+        assert (FP : fin_part s u (set_fin s2 fh)).
+        { right. unfold fin_slot_or_0. rewrite EU. cbn. split; [reflexivity|]. split; [rewrite <- F2; lia | reflexivity]. }
+        destruct (h_slot (s_opt s2) <? h_slot fh); inversion H; subst s'; cbn;
+          (split; [apply (fin_part_ext _ _ _ (set_fin s2 fh)); [reflexivity | exact FP]|]); right; right; exists nx; (split; [congruence|]); (split; [exact P|]); (split; reflexivity).
+      * inversion H; subst s'. cbn. split.
+        -- left. split; [exact F2 | rewrite <- F2; lia].
+        -- right; right. exists nx. split; [congruence|]. split; [exact P|]. split; reflexivity.
+    + assert (P : calc_sync_period (fin_slot_or_0 u) <> calc_sync_period (h_slot (s_fin s)) + 1) by (rewrite <- F2; lia).
+      destruct (h_slot (s_fin s2) <? fin_slot_or_0 u) eqn:EF.
+      * unfold fin_slot_or_0 in EF, H. destruct (u_fin u) as [fh|] eqn:EU; [|discriminate].
+        assert (FP : fin_part s u (set_fin s2 fh)).
+        { right. unfold fin_slot_or_0. rewrite EU. cbn. split; [reflexivity|]. split; [rewrite <- F2; lia | reflexivity]. }
+        cbn in H. destruct (h_slot (s_opt s2) <? h_slot fh); inversion H; subst s'; cbn;
+          (split; [apply (fin_part_ext _ _ _ (set_fin s2 fh)); [reflexivity | exact FP]|]); right; left; exists nx; (split; [congruence|]); (split; [exact P|]); (split; congruence).
+      * inversion H; subst s'. split.
+        -- left. split; [exact F2 | rewrite <- F2; lia].
+        -- right; left. exists nx. split; [congruence|]. split; [exact P|]. split; congruence.
+  - cbn in H. destruct (h_slot (s_fin s2) <? fin_slot_or_0 u) eqn:EF.
+    + unfold fin_slot_or_0 in EF, H. destruct (u_fin u) as [fh|] eqn:EU; [|discriminate].
+      assert (FP : fin_part s u (set_fin s2 fh)).
+      { right. unfold fin_slot_or_0. rewrite EU. cbn. split; [reflexivity|]. split; [rewrite <- F2; lia | reflexivity]. }
+      destruct (h_slot (s_opt s2) <? h_slot fh); inversion H; subst s'; cbn;
+        (split; [apply (fin_part_ext _ _ _ (set_fin s2 fh)); [reflexivity | exact FP]|]); left; (split; [congruence|]); (split; [exact C2 | reflexivity]).
+    + inversion H; subst s'. cbn. split.
+      * left. split; [exact F2 | rewrite <- F2; lia].
+      * left. split; [congruence|]. split; [exact C2 | reflexivity].
+Qed.
+
+(* ================================================================== trust: chains of committee hand-overs *)
+
+Section Trust.
+  Variable g : bytes.    (* genesis validators root: configuration, fixed for a history *)
+
+  Definition sig_period (u : update) : N := calc_sync_period (u_sigslot u).
+  Definition att_period (u : update) : N := calc_sync_period (h_slot (u_attested u)).
+
+  (* more than two thirds (3*bits >= 2*512, as the code writes it) of committee c signed the attested header of u:
+     the signature is the aggregate of exactly the keys of c at the set bits, over the signing root *)
+  Definition supermajority_signed (c : committee) (u : update) : Prop :=
+    exists fv bits pks ids signers,
+      get_bits (u_bits u) = Ok bits /\ 512 * 2 <= bits * 3 /\
+      participating_keys c (u_bits u) = Ok pks /\ pks = map PkValid ids /\
+      u_sig u = SigOf signers (committee_sign_root g (htr_header (u_attested u)) fv) /\ Permutation signers ids.
+
+  (* c, the committee of period p, hands over to nc, the committee of period p+1: a supermajority of c signed, in period p,
+     a header of period p whose state root commits to nc at the next-sync-committee position (or SHA-256 collides) *)
+  Definition hands_over (c : committee) (p : N) (nc : committee) : Prop :=
+    exists u br, supermajority_signed c u /\ sig_period u = p /\ att_period u = p /\
+      u_next u = Some nc /\ u_next_branch u = Some br /\
+      branch_holds (c_root nc) NEXT_DEPTH NEXT_INDEX (h_state (u_attested u)).
+
+  (* committees reachable from the initial store through hand-overs, labelled with their period *)
+  Inductive trusted (s0 : store) : committee -> N -> Prop :=
+  | tr_cur : trusted s0 (s_cur s0) (calc_sync_period (h_slot (s_fin s0)))
+  | tr_next n : s_next s0 = Some n -> trusted s0 n (calc_sync_period (h_slot (s_fin s0)) + 1)
+  | tr_hand c p nc : trusted s0 c p -> hands_over c p nc -> trusted s0 nc (p + 1).
+
+  (* header h was finalized by committee c of period p: a supermajority of c signed, in period p, a header at or after h whose
+     state root commits to h at the finalized-checkpoint position (or SHA-256 collides) *)
+  Definition finalized_by (c : committee) (p : N) (h : header) : Prop :=
+    exists u br, supermajority_signed c u /\ sig_period u = p /\
+      u_fin u = Some h /\ u_fin_branch u = Some br /\
+      h_slot h <= h_slot (u_attested u) /\ h_slot (u_attested u) < u_sigslot u /\
+      branch_holds (htr_header h) FIN_DEPTH FIN_INDEX (h_state (u_attested u)).
+
+  Record trust_inv (s0 s : store) : Prop := {
+    ti_cur : trusted s0 (s_cur s) (calc_sync_period (h_slot (s_fin s)));
+    ti_next : forall n, s_next s = Some n -> trusted s0 n (calc_sync_period (h_slot (s_fin s)) + 1);
+    ti_fin : s_fin s = s_fin s0 \/
+             exists c p, trusted s0 c p /\ finalized_by c p (s_fin s) /\ calc_sync_period (h_slot (s_fin s)) <= p
+  }.
+
+  Lemma trust_inv_init s0 : trust_inv s0 s0.
+  Proof. constructor; [apply tr_cur | intros n E; apply tr_next; exact E | left; reflexivity]. Qed.
+
+  Lemma period_mono a b : a <= b -> calc_sync_period a <= calc_sync_period b.
+  Proof. unfold calc_sync_period. intros. lia. Qed.
+  Lemma period_lt a b : calc_sync_period a < calc_sync_period b -> a < b.
+  Proof. unfold calc_sync_period. intros. lia. Qed.
+
+  Local Notation sp_ s := (calc_sync_period (h_slot (s_fin s))).
+  Lemma process_preserves_trust s0 s u now fv :
+    paired u -> trust_inv s0 s -> trust_inv s0 (process s (mkStep u now g fv)).
+  Proof.
+    intros [PF PN] I.
+    destruct (process_cases s (mkStep u now g fv)) as [-> | (V & bits & G & _)]; [exact I|].
+    pose proof (verified_is_applied _ _ V) as A. cbn [st_update] in A, G.
+    unfold step_verified in V. cbn in V. apply verify_sound in V.
+    set (s' := process s (mkStep u now g fv)) in *. clearbody s'.
+    destruct (vp_time _ _ _ _ _ V) as (T1 & T2 & T3).
+    pose proof (vp_period _ _ _ _ _ V) as PFt. unfold period_fits in PFt. cbv zeta in PFt.
+    pose proof (vp_relevant _ _ _ _ _ V) as RL. unfold relevant in RL.
+    destruct (vp_signature _ _ _ _ _ V) as (c & pks & ids & signers & CF & PK & EP & NE & SG & PM).
+    (* the signing committee is trusted, with the signature period as its label *)
+    assert (TS : trusted s0 c (sig_period u)).
+    { unfold committee_for in CF. unfold sig_period. 
+      destruct (calc_sync_period (u_sigslot u) =? (sp_ s)) eqn:E.
+      - inversion CF; subst c. replace (calc_sync_period (u_sigslot u)) with (sp_ s) by lia. apply (ti_cur _ _ I).
+      - destruct PFt as [E' | [_ E']]; [lia|]. rewrite E'. apply (ti_next _ _ I). exact CF. }
+    destruct (apply_kinds _ _ _ _ A G) as [(F & C & N) | (Maj & FP & K)].
+    { constructor.
+      - rewrite C, F. apply (ti_cur _ _ I).
+      - intros n E. rewrite N in E. rewrite F. apply (ti_next _ _ I). exact E.
+      - rewrite F. apply (ti_fin _ _ I). }
+    assert (SM : supermajority_signed c u).
+    { exists fv, bits, pks, ids, signers. repeat split; assumption. }
+    (* the finalized header part, given the period of the new finalized header *)
+    assert (FIN : s_fin s' = s_fin s0 \/
+                  exists c0 p, trusted s0 c0 p /\ finalized_by c0 p (s_fin s') /\ calc_sync_period (h_slot (s_fin s')) <= p).
+    { destruct FP as [(E & _) | (E & L & E2)].
+      - rewrite E. apply (ti_fin _ _ I).
+      - right. exists c, (sig_period u). split; [exact TS|].
+        rewrite E in PF. destruct (u_fin_branch u) as [br|] eqn:EB; [|discriminate].
+        split.
+        + exists u, br. split; [exact SM|]. split; [reflexivity|]. split; [exact E|]. split; [exact EB|].
+          unfold fin_slot_or_0 in T3, E2. rewrite E in T3, E2. split; [lia|]. split; [exact T2|].
+          eapply (vp_finality _ _ _ _ _ V); [exact E | exact EB].
+        + unfold sig_period. apply period_mono. lia. }
+    destruct K as [(N0 & C & N) | [(nx & N0 & P & C & N) | (nx & N0 & P & C & N)]].
+    - (* the store had no next committee: it may take the update's *)
+      assert (SP : calc_sync_period (u_sigslot u) = (sp_ s)) by (destruct PFt as [E | [E _]]; [exact E | congruence]).
+      assert (AP : att_period u = (sp_ s)).
+      { unfold att_period. pose proof (period_mono _ _ (N.lt_le_incl _ _ T2)).
+        destruct RL as [L | (_ & _ & E)]; [|exact E]. pose proof (period_mono _ _ (N.lt_le_incl _ _ L)). lia. }
+      assert (FS : calc_sync_period (h_slot (s_fin s')) = (sp_ s)).
+      { destruct FP as [(E & _) | (E & L & E2)]; [rewrite E; reflexivity|].
+        rewrite E2. pose proof (period_mono _ _ (N.lt_le_incl _ _ L)). pose proof (period_mono _ _ T3).
+        unfold att_period in AP. lia. }
+      constructor.
+      + rewrite C, FS. apply (ti_cur _ _ I).
+      + intros n E. rewrite N in E. rewrite FS.
+        rewrite E in PN. destruct (u_next_branch u) as [br|] eqn:EB; [|discriminate].
+        apply (tr_hand s0 c (sp_ s) n).
+        * unfold sig_period in TS. rewrite SP in TS. exact TS.
+        * exists u, br. split; [exact SM|]. split; [exact SP|]. split; [exact AP|]. split; [exact E|]. split; [exact EB|].
+          eapply (vp_next_committee _ _ _ _ _ V); [exact E | exact EB].
+      + exact FIN.
+    - (* next committee known, no rotation: the finalized header stays in the store period *)
+      assert (FS : calc_sync_period (h_slot (s_fin s')) = (sp_ s)).
+      { destruct FP as [(E & _) | (E & L & E2)]; [rewrite E; reflexivity|].
+        rewrite E2. pose proof (period_mono _ _ (N.lt_le_incl _ _ L)). pose proof (period_mono _ _ T3).
+        pose proof (period_mono _ _ (N.lt_le_incl _ _ T2)). lia. }
+      constructor.
+      + rewrite C, FS. apply (ti_cur _ _ I).
+      + intros n E. rewrite N in E. rewrite FS. apply (ti_next _ _ I). exact E.
+      + exact FIN.
+    - (* rotation *)
+            assert (L : h_slot (s_fin s) < fin_slot_or_0 u) by (apply period_lt; lia).
+      destruct FP as [(_ & L') | (E & _ & E2)]; [lia|].
+      assert (FS : calc_sync_period (h_slot (s_fin s')) = (sp_ s) + 1) by (rewrite E2; exact P).
+      pose proof (period_mono _ _ T3) as M1. pose proof (period_mono _ _ (N.lt_le_incl _ _ T2)) as M2.
+      assert (SP : calc_sync_period (u_sigslot u) = (sp_ s) + 1) by (destruct PFt as [E' | [_ E']]; lia).
+      assert (AP : att_period u = (sp_ s) + 1) by (unfold att_period; lia).
+      constructor.
+      + rewrite C, FS. apply (ti_next _ _ I). exact N0.
+      + intros n En. rewrite N in En. rewrite FS.
+        rewrite En in PN. destruct (u_next_branch u) as [br|] eqn:EB; [|discriminate].
+        apply (tr_hand s0 c ((sp_ s) + 1) n).
+        * unfold sig_period in TS. rewrite SP in TS. exact TS.
+        * exists u, br. split; [exact SM|]. split; [exact SP|]. split; [exact AP|]. split; [exact En|]. split; [exact EB|].
+          eapply (vp_next_committee _ _ _ _ _ V); [exact En | exact EB].
+      + exact FIN.
+  Qed.
+End Trust.
+
+(* ================================================================== histories of wire messages *)
+
+Lemma conv_of_paired m u : conv_of m = Ok u -> paired u.
+Proof. destruct m as [f| f| f]; destruct f; cbn; intros H; inversion H; split; reflexivity. Qed.
+
+Lemma process_wire_preserves_trust g s0 s x : trust_inv g s0 s -> trust_inv g s0 (process_wire g s x).
+Proof.
+  intros I. unfold process_wire. destruct (conv_of (ws_msg x)) as [u| |] eqn:E; try exact I.
+  apply process_preserves_trust; [eapply conv_of_paired; exact E | exact I].
+Qed.
+
+(* THE history-level safety theorem: for ANY sequence of wire messages (updates, finality updates, optimistic updates of any
+   fork container, valid or not, any slots, any clock values, any fork versions), run through convert / verify / apply from
+   ANY initial store: the current committee of every reached store is a committee reached from the initial store's
+   committees through hand-overs, each attested - in the period of the handing-over committee, for a header of that period,
+   at the next-sync-committee position of its state root - by more than two thirds of the previous one, and it carries the
+   label of the store's own period; the next committee likewise with the following period; and the finalized header is
+   the initial one or was finalized by more than two thirds of such a committee, in a period not before the header's. *)
+Theorem history_safety g s0 : forall l, trust_inv g s0 (run_wire g s0 l).
+Proof.
+  intros l. unfold run_wire. generalize (trust_inv_init g s0). generalize s0 at 2 4 as s.
+  induction l as [|x l IH]; intros s I; [exact I|]. cbn [fold_left]. apply IH. apply process_wire_preserves_trust. exact I.
+Qed.
+
+(* from bootstrap: the chain starts at the committee bound, through its branch and the header container root, to the
+   trusted checkpoint *)
+Theorem history_safety_from_bootstrap g checkpoint b now max_age strict s0 :
+  bootstrap checkpoint b now max_age strict = Ok s0 ->
+  htr_lc_header b = checkpoint /\ s_cur s0 = b_committee b /\ s_next s0 = None /\ s_fin s0 = b_beacon b /\
+  forall l, trust_inv g s0 (run_wire g s0 l).
+Proof.
+  intros B. apply bootstrap_sound in B as (E & -> & _ & _).
+  split; [exact E|]. split; [reflexivity|]. split; [reflexivity|]. split; [reflexivity|]. apply history_safety.
+Qed.
+
+(* no trusted committee can be conjured: every trusted committee other than the initial ones has a hand-over behind it *)
+Lemma trusted_inversion g s0 c p :
+  trusted g s0 c p ->
+  (c = s_cur s0 /\ p = calc_sync_period (h_slot (s_fin s0))) \/
+  (s_next s0 = Some c /\ p = calc_sync_period (h_slot (s_fin s0)) + 1) \/
+  (exists c' p', trusted g s0 c' p' /\ hands_over g c' p' c /\ p = p' + 1).
+Proof. intros T. destruct T; [left; auto | right; left; auto | right; right; eauto]. Qed.
+
+(* ================================================================== clock and period arithmetic, for all values *)
+
+Lemma expected_current_slot_spec now_time genesis_time slot :
+  expected_current_slot now_time genesis_time < slot <->
+  (0 < slot /\ now_time < genesis_time + slot * K_LC_SECONDS_PER_SLOT).
+Proof.
+  unfold expected_current_slot. change K_LC_SECONDS_PER_SLOT with 12.
+  destruct (now_time <? genesis_time) eqn:E; split; intros H; lia.
+Qed.
+
+(* an update whose signature slot is in the future of the clock, or not after the attested slot, or whose finalized slot is
+   after the attested one, is rejected with the timestamp error - for every store, every other field, every value *)
+Theorem verify_rejects_bad_time s u now genesis fv bits :
+  get_bits (u_bits u) = Ok bits -> bits <> 0 ->
+  (now < u_sigslot u \/ u_sigslot u <= h_slot (u_attested u) \/ h_slot (u_attested u) < fin_slot_or_0 u) ->
+  verify s u now genesis fv = Err E_TIMESTAMP.
+Proof.
+  intros G NZ H. unfold verify. rewrite G. cbn [bind]. replace (bits =? 0) with false by lia.
+  replace ((u_sigslot u <=? now) && (h_slot (u_attested u) <? u_sigslot u) && (fin_slot_or_0 u <=? h_slot (u_attested u))) with false by lia.
+  reflexivity.
+Qed.
+
+Theorem verify_at_rejects_future s u now_time genesis_time genesis fv :
+  now_time < genesis_time + u_sigslot u * K_LC_SECONDS_PER_SLOT -> 0 < u_sigslot u ->
+  verify_at s u now_time genesis_time genesis fv <> Ok tt.
+Proof.
+  intros F P. unfold verify_at. intros V.
+  assert (L : expected_current_slot now_time genesis_time < u_sigslot u) by (apply expected_current_slot_spec; split; assumption).
+  revert V L. generalize (expected_current_slot now_time genesis_time) as now. intros now V L.
+  apply verify_sound in V. destruct (vp_time _ _ _ _ _ V) as (T & _ & _). lia.
+Qed.
+
+(* TimeAtSlot never wraps: its guard keeps slot * SECONDS_PER_SLOT + genesis below 2^64 *)
+Lemma time_at_slot_no_wrap slot genesis_time t :
+  genesis_time <= two64m1 -> time_at_slot slot genesis_time = Ok t ->
+  t = slot * K_LC_SECONDS_PER_SLOT + genesis_time /\ t <= two64m1.
+Proof.
+  unfold time_at_slot. change K_LC_SECONDS_PER_SLOT with 12. unfold two64m1.
+  intros B. destruct (_ <=? slot) eqn:E; intros H; inversion H. split; [reflexivity|]. lia.
+Qed.
+
+(* isValidCheckpoint subtracts two timestamps in uint64: a bootstrap header whose slot is in the FUTURE of the clock wraps
+   to an enormous age and is invalid (rejected under StrictCheckpointAge) *)
+Lemma checkpoint_in_future_is_invalid now_slot slot max_age :
+  now_slot < slot -> slot * K_LC_SECONDS_PER_SLOT < two64 ->
+  (slot - now_slot) * K_LC_SECONDS_PER_SLOT + max_age <= two64 ->
+  is_valid_checkpoint now_slot slot max_age = false.
+Proof.
+  unfold is_valid_checkpoint, two64. change K_LC_SECONDS_PER_SLOT with 12. intros L B M.
+  apply N.ltb_ge. rewrite (N.mod_small (slot * 12)) by exact B.
+  replace (now_slot * 12 + 18446744073709551616 - slot * 12) with (18446744073709551616 - (slot - now_slot) * 12) by lia.
+  rewrite N.mod_small by lia. lia.
+Qed.
+Lemma checkpoint_age_spec now_slot slot max_age :
+  slot <= now_slot -> now_slot * K_LC_SECONDS_PER_SLOT < two64 ->
+  is_valid_checkpoint now_slot slot max_age = ((now_slot - slot) * K_LC_SECONDS_PER_SLOT <? max_age).
+Proof.
+  unfold is_valid_checkpoint, two64. change K_LC_SECONDS_PER_SLOT with 12. intros L B.
+  rewrite (N.mod_small (slot * 12)) by lia.
+  replace (now_slot * 12 + 18446744073709551616 - slot * 12) with ((now_slot - slot) * 12 + 1 * 18446744073709551616) by lia.
+  rewrite N.mod_add by lia. rewrite N.mod_small by lia. reflexivity.
+Qed.
+
+(* ================================================================== Electra
+   The light client accepts only the electra.LightClientBootstrap container, whose branch has 6 nodes (the Electra state has
+   37 fields, 64 leaves, current_sync_committee at generalized index 86 = depth 6 index 22).  The code folds 5 nodes at index
+   22, i.e. it proves membership at generalized index 54 of the state root.  In a 6-deep state tree that position is the
+   parent of leaves 44 and 45, which do not exist in an Electra state and are zero chunks.  So: an accepted bootstrap whose
+   state root is that of an Electra-shaped tree has a committee whose hash-tree-root is H(0,0) - or SHA-256 collides.  No
+   committee has that root in practice: genuine Electra bootstraps are rejected, none is wrongly accepted.  (A pre-Electra
+   state served in the Electra container - 32 leaves, committee at generalized index 54 - is accepted, correctly: the sixth
+   node is never read.)  Electra LightClientUpdate / LightClientFinalityUpdate containers are rejected by the converters
+   (WElectra / WOther), so the depth-7 finality and depth-6 next-committee branches are never evaluated. *)
+Lemma electra_leaves_under_the_checked_position :
+  path_of 6 44 = path_of 5 22 ++ [false] /\ path_of 6 45 = path_of 5 22 ++ [true] /\
+  firstn 5 (path_of 6 22) <> path_of 5 22.
+Proof. repeat split; vm_compute; congruence. Qed.
+
+Theorem bootstrap_on_electra_state checkpoint b now max_age strict s t :
+  bootstrap checkpoint b now max_age strict = Ok s ->
+  troot Hp t = h_state (b_beacon b) ->
+  subtree t (path_of 5 22) = Some (Node (Leaf zero32) (Leaf zero32)) ->
+  c_root (b_committee b) = Hp zero32 zero32 \/ Collision Hp.
+Proof.
+  intros B R S. apply bootstrap_sound in B as (_ & _ & BH & _).
+  destruct (BH t _ R S) as [E | C]; [left; rewrite <- E; reflexivity | right; exact C].
 Qed.
